@@ -348,7 +348,7 @@ func runC13Script(t *testing.T, c *C13Case, script TransportFaults, trace bool) 
 			return
 		}
 		sub.errored = sp.errored
-		sub.resumed = out.Faults["stream-reset"] > 0 && !sp.errored && len(sp.data) > 0
+		sub.resumed = (out.Faults["stream-reset"] > 0 || out.Faults["stream-ended-cleanly"] > 0) && !sp.errored && len(sp.data) > 0
 		if sp.errored {
 			// a terminal Errored needs a cause
 			lastHadBookmark := false
@@ -454,6 +454,9 @@ func (c13) Run(t *testing.T, cs Case, trace bool) *Outcome {
 			}
 			scripts = append(scripts, TransportFaults{Resets: []StreamFault{{Stream: 1, After: k}}, WatchFail: wf})
 		}
+		// the stream does not break but ends cleanly at this point (io.EOF on the client): the watch must resume or
+		// terminate with Errored all the same
+		scripts = append(scripts, TransportFaults{Resets: []StreamFault{{Stream: 1, After: k, Clean: true}}})
 		// the same reset, then the resumed stream is reset again right after its first message
 		scripts = append(scripts, TransportFaults{Resets: []StreamFault{{Stream: 1, After: k}, {Stream: 2, After: 1}}})
 	}
